@@ -31,6 +31,7 @@ type Profile struct {
 	StrKeyP                       float64
 	CIP                           float64 // a string column is _ai_ci
 	UniqP, UniqMultiP, PrefixP    float64
+	PrefixFam                     float64 // a table gets a unique key with a prefix length of 2..4 over a string column fed from prefixPool
 	IdxP                          float64 // plain secondary indexes
 	NotNullP, DefaultP, CheckP    float64
 	GenP                          float64
@@ -74,7 +75,7 @@ func ProfileFor(name string) Profile {
 			MinLen: 10, MaxLen: 40, BadPrinted: 0.04, BadCI: 0.04, BadBail: 0.05}
 	case "c14":
 		return Profile{Name: name, Tables: 2, PKNone: 1, PKSingle: 4, PKComposite: 5, StrKeyP: 0.5, CIP: 0.5, UniqP: 0.8, UniqMultiP: 0.4,
-			PrefixP: 0.3, NotNullP: 0.1, DefaultP: 0.1, W: wts(map[string]int{"insert": 34, "replace": 10, "odku": 10, "update": 26, "delete": 8}),
+			PrefixP: 0.3, PrefixFam: 0.45, NotNullP: 0.1, DefaultP: 0.1, W: wts(map[string]int{"insert": 34, "replace": 10, "odku": 10, "update": 26, "delete": 8}),
 			ReuseP: 0.7, NullP: 0.2, OmitP: 0.15, KeyUpdP: 0.7, MinLen: 10, MaxLen: 40, BadPrinted: 0.05, BadCI: 0.05, BadBail: 0.08}
 	case "c16":
 		return Profile{Name: name, Tables: 1, PKNone: 2, PKSingle: 5, PKComposite: 3, StrKeyP: 0.4, CIP: 0.4, UniqP: 0.6, UniqMultiP: 0.4,
@@ -102,16 +103,18 @@ type History struct {
 }
 
 type Gen struct {
-	R    *rand.Rand
-	P    Profile
-	H    *History
-	seen map[string][]Value // table.col -> literal values used so far
-	nidx int
+	R      *rand.Rand
+	P      Profile
+	H      *History
+	seen   map[string][]Value // table.col -> literal values used so far
+	nidx   int
 	nalter int
+	queue  []*Stmt        // statements of a started multi-statement scenario (emitted before anything new is drawn)
+	top    map[string]int // table -> upper bound of every AUTO_INCREMENT value stored or handed out so far
 }
 
 func New(seed int64, p Profile) *Gen {
-	return &Gen{R: rand.New(rand.NewSource(seed)), P: p, seen: map[string][]Value{}}
+	return &Gen{R: rand.New(rand.NewSource(seed)), P: p, seen: map[string][]Value{}, top: map[string]int{}}
 }
 
 func (g *Gen) chance(p float64) bool { return g.R.Float64() < p }
@@ -150,7 +153,11 @@ var (
 
 // ---------------------------------------------------------------- schema
 
-type colRole struct{ inPK, inKey, composite bool }
+type colRole struct {
+	inPK, inKey, composite bool
+	plen                   int  // largest prefix length a unique key declares on the column (0 = none)
+	mate                   bool // the column shares a unique key with a prefix part (few values, so that the prefix part decides)
+}
 
 func (g *Gen) Schema() *History {
 	h := &History{Tables: map[string]*Table{}}
@@ -208,6 +215,25 @@ func (g *Gen) table(name string) *Table {
 	g.R.Shuffle(len(rest), func(i, j int) { rest[i], rest[j] = rest[j], rest[i] })
 	used := 0
 	nu := 0
+	if p.PrefixFam > 0 && len(rest) > 0 && g.chance(p.PrefixFam) {
+		// UNIQUE KEY (c(n)), n in 2..4, over a string column whose values come from prefixPool(n):
+		// shorter than, as long as and longer than n, sharing prefixes; alone or behind an INT column
+		c := rest[0]
+		coll := "bin"
+		if g.chance(p.CIP * 0.6) {
+			coll = "ci"
+		}
+		t.Cols[c-1] = StrCol(coll)
+		parts := []KeyPart{{Col: c, Plen: 2 + g.pick(3)}}
+		used = 1
+		if len(rest) > 1 && g.chance(0.25) {
+			t.Cols[rest[1]-1] = IntCol()
+			parts = []KeyPart{{Col: rest[1]}, parts[0]}
+			used = 2
+		}
+		nu = 1
+		t.Uniq = append(t.Uniq, Index{Name: "u1", Parts: parts})
+	}
 	for used < len(rest) && nu < 2 && g.chance(p.UniqP) {
 		parts := []KeyPart{{Col: rest[used]}}
 		used++
@@ -284,8 +310,17 @@ func (g *Gen) autoTable() *Table {
 	if g.chance(0.5) {
 		t.Cols = append(t.Cols, IntCol())
 	}
-	t.PK = []int{1}
 	t.Uniq = []Index{{Name: "u1", Parts: []KeyPart{{Col: 2}}}}
+	// the key MySQL demands on the AUTO_INCREMENT column: the primary key, a unique key or a plain key
+	// (with a plain key the table is keyless for the specification and equal ids are storable)
+	switch g.pick(4) {
+	case 0:
+		t.Uniq = append(t.Uniq, Index{Name: "ua", Parts: []KeyPart{{Col: 1}}})
+	case 1:
+		t.Idx = []Index{{Name: "ia", Parts: []KeyPart{{Col: 1}}}}
+	default:
+		t.PK = []int{1}
+	}
 	if g.chance(g.P.DefaultP) {
 		t.Cols[2].HasDef, t.Cols[2].Def = true, sqlast.Str("d")
 	}
@@ -416,6 +451,14 @@ func (g *Gen) roleOf(t *Table, col int) colRole {
 				if len(u.Parts) > 1 {
 					r.composite = true
 				}
+				if p.Plen > r.plen {
+					r.plen = p.Plen
+				}
+				for _, o := range u.Parts {
+					if o.Col != col && o.Plen > 0 {
+						r.mate = true
+					}
+				}
 			}
 		}
 	}
@@ -427,7 +470,44 @@ func (g *Gen) poolValue(c Col, keyed bool) Value {
 	return g.poolValueRole(c, colRole{inKey: keyed})
 }
 
+// prefixPool: strings around the prefix length n of a unique key (stem "abcdef"): proper prefixes of
+// the stem that are SHORTER than n, the stem cut at n, LONGER strings with the same first n characters
+// that differ only behind the prefix, strings that differ inside the prefix, and unrelated ones.
+func (g *Gen) prefixPool(n int, ci bool) string {
+	const stem = "abcdefgh"
+	x := g.pick(100)
+	var s string
+	switch {
+	case x < 30: // shorter than the prefix (n >= 2): 'a', 'ab', ..
+		s = stem[:1+g.pick(n-1)]
+	case x < 42: // exactly the prefix
+		s = stem[:n]
+	case x < 75: // longer, same prefix
+		s = stem[:n] + []string{stem[n : n+1], stem[n : n+2], "X", "Y", "XY", "Xb"}[g.pick(6)]
+	case x < 87: // differs inside the prefix (shares a shorter one)
+		k := g.pick(n)
+		s = stem[:k] + "x" + []string{"", stem[k+1 : n], stem[k+1 : n+1]}[g.pick(3)]
+	case x < 92:
+		s = ""
+	default:
+		s = []string{"b", "ba", "bcd"}[g.pick(3)]
+	}
+	if ci && g.chance(g.P.BadCI) && len(s) > 0 {
+		// a case variant inside the prefix: the known finding "keys compare _ai_ci columns byte-wise"
+		s = string(s[0]-32) + s[1:]
+	}
+	return s
+}
+
 func (g *Gen) poolValueRole(c Col, r colRole) Value {
+	if c.Ty == "s" && r.plen >= 2 && g.P.PrefixFam > 0 {
+		if !r.composite || g.chance(0.85) {
+			return sqlast.Str(g.prefixPool(r.plen, c.Coll == "ci"))
+		}
+	}
+	if c.Ty == "i" && r.mate && !r.inPK && g.P.PrefixFam > 0 {
+		return sqlast.Int(1 + g.pick(2))
+	}
 	if c.Ty == "i" {
 		if c.Auto {
 			return sqlast.Int(1 + g.pick(20))
@@ -480,7 +560,13 @@ func (g *Gen) value(tn string, t *Table, col int, allowNull bool) Value {
 
 // Statements appends n statements to the history.
 func (g *Gen) Statements(n int) {
-	for len(g.H.Stmts) < n {
+	for len(g.H.Stmts) < n || len(g.queue) > 0 {
+		if len(g.queue) > 0 {
+			// a started scenario is finished even beyond the drawn history length
+			g.emit(g.queue[0])
+			g.queue = g.queue[1:]
+			continue
+		}
 		tn := g.H.Names[g.pick(len(g.H.Names))]
 		t := g.H.Tables[tn]
 		kind := g.weighted(g.P.W)
@@ -507,20 +593,164 @@ func (g *Gen) Statements(n int) {
 		case "dropindex":
 			s = g.dropIndex(tn, t)
 		case "alterauto":
-			// mostly beyond every value in use (explicit values are <= 20, generated ones follow the
-			// counter); rarely a low value: the engine then re-issues existing ids (known finding)
-			g.nalter++
-			if g.chance(0.05) {
-				s = AlterAuto(tn, 1+g.pick(12))
-			} else {
-				s = AlterAuto(tn, 40*g.nalter+g.pick(6))
-			}
+			g.alterAutoScenario(tn, t)
 		case "lastid":
 			s = LastID()
 		}
 		if s != nil {
-			g.H.Stmts = append(g.H.Stmts, s)
+			g.emit(s)
 		}
+	}
+}
+
+func (g *Gen) emit(s *Stmt) {
+	g.H.Stmts = append(g.H.Stmts, s)
+	g.noteAuto(s)
+}
+
+// noteAuto keeps g.top[t] an UPPER BOUND of every AUTO_INCREMENT value table t stores or has handed
+// out: an explicit value raises it to that value, every row that may have a value generated raises it
+// by one (also when the statement then fails: the engine may burn the value), ALTER TABLE ..
+// AUTO_INCREMENT = n raises it to n - 1.  Nothing is ever evaluated here; the bound only lets a
+// scenario name an explicit value that is certainly the largest one in the table.
+func (g *Gen) noteAuto(s *Stmt) {
+	t := g.H.Tables[s.T]
+	if t == nil || t.AutoCol() == 0 {
+		return
+	}
+	switch s.K {
+	case "alterauto":
+		if s.N-1 > g.top[s.T] {
+			g.top[s.T] = s.N - 1
+		}
+	case "insert":
+		pos := -1
+		for i, c := range s.Cols {
+			if c == t.AutoCol() {
+				pos = i
+			}
+		}
+		for _, r := range s.Rows {
+			if pos >= 0 && !r[pos].D && r[pos].E.V.T == "i" {
+				if v, ok := r[pos].E.V.V.(int); ok && v > 0 {
+					if v > g.top[s.T] {
+						g.top[s.T] = v
+					}
+					continue
+				}
+			}
+			g.top[s.T]++
+		}
+	}
+}
+
+// alterAutoScenario queues ALTER TABLE .. AUTO_INCREMENT = n in a KNOWN relation to the largest
+// stored value and to the counter, followed by inserts that have a value generated:
+//
+//	INSERT (id) VALUES (v)            v above g.top: certainly the largest stored value, counter = v + 1
+//	[INSERT (id) VALUES (w), w > v;   DELETE .. WHERE id = w]      the maximum row is deleted again:
+//	                                  largest stored value v, counter w + 1
+//	ALTER TABLE t AUTO_INCREMENT = n  n below v | = v | = v + 1 | between | = w (deleted maximum) | = counter | far above
+//	generating INSERTs (single row, multi-row, INSERT IGNORE; id omitted / NULL / 0 / DEFAULT), SELECT LAST_INSERT_ID()
+//
+// The other columns of the scenario's rows are NULL / fresh, so that only the id can collide.
+func (g *Gen) alterAutoScenario(tn string, t *Table) {
+	ac := t.AutoCol()
+	if ac == 0 {
+		return
+	}
+	q := func(s *Stmt) { g.queue = append(g.queue, s) }
+	explicit := func(v int) *Stmt {
+		return Insert(tn, "plain", []int{ac}, [][]Cell{{ValCell(sqlast.Int(v))}}, nil)
+	}
+	g.nalter++
+	if g.chance(0.15) {
+		// no preparation: n against whatever the table holds (small values are mostly below the maximum)
+		n := 1 + g.pick(12)
+		if g.chance(0.4) {
+			n = g.top[tn] + 1 + g.pick(30)
+		}
+		q(AlterAuto(tn, n))
+	} else {
+		v := g.top[tn] + 1 + g.pick(3)
+		q(explicit(v))
+		counter := v + 1
+		w := 0
+		if g.chance(0.35) {
+			w = v + 1 + g.pick(3)
+			q(explicit(w))
+			q(Delete(tn, sqlast.Op("eq", ColRef(ac, t.Cols[ac-1]), Lit(sqlast.Int(w))), nil, -1))
+			counter = w + 1
+		}
+		var ns []int
+		ns = append(ns, v, v, v, v+1, v+1) // equal to the maximum and one above it: the boundary
+		if v > 1 {
+			ns = append(ns, v-1, 1+g.pick(v-1))
+		}
+		ns = append(ns, counter, v+20+g.pick(10))
+		if w > 0 {
+			ns = append(ns, w, w)
+			if w > v+1 {
+				ns = append(ns, v+1+g.pick(w-v-1))
+			}
+		}
+		q(AlterAuto(tn, ns[g.pick(len(ns))]))
+	}
+	// inserts that have a value generated; the unique column stays NULL so that only the id can collide
+	var others []int
+	for _, c := range g.insertable(t) {
+		if c != ac && !g.roleOf(t, c).inKey {
+			others = append(others, c)
+		}
+	}
+	genCell := func() (Cell, bool) {
+		switch g.pick(4) {
+		case 0:
+			return ValCell(sqlast.Null()), true
+		case 1:
+			return ValCell(sqlast.Int(0)), true
+		case 2:
+			return DefaultCell(), true
+		}
+		return Cell{}, false
+	}
+	for k, n := 0, 1+g.pick(2); k < n; k++ {
+		cols := []int{}
+		cell, named := genCell()
+		if named || len(others) == 0 {
+			cols = append(cols, ac)
+			if !named {
+				cell = ValCell(sqlast.Null())
+			}
+		}
+		oc := 0
+		if len(others) > 0 {
+			oc = others[g.pick(len(others))]
+			cols = append(cols, oc)
+		}
+		nrows := 1
+		if g.chance(0.3) {
+			nrows = 2
+		}
+		var rows [][]Cell
+		for r := 0; r < nrows; r++ {
+			var row []Cell
+			if len(cols) > 0 && cols[0] == ac {
+				row = append(row, cell)
+			}
+			if oc != 0 {
+				row = append(row, ValCell(g.value(tn, t, oc, true)))
+			}
+			rows = append(rows, row)
+		}
+		mode := "plain"
+		if g.chance(0.25) {
+			mode = "ignore"
+		}
+		q(Insert(tn, mode, cols, rows, nil))
+	}
+	if g.chance(0.5) {
+		q(LastID())
 	}
 }
 
